@@ -18,8 +18,15 @@ FpShortHdrs == [k \in 1..(128 * 64) |-> << ((k - 1) \div 128) * 4, (k - 1) % 128
 FpLongHdrs  == [k \in 1..32768 |-> << ((k - 1) % 64) * 4, 128 + ((k - 1) \div 256), (k - 1) % 256 >>]  \* all long lengths, first byte cycling
 FirstBytes  == [k \in 1..256 |-> << k - 1, 0, 9, 0 >>]                                          \* every first byte with a fixed 4-byte header
 
+\* EVERY first byte other than 0x03 starts a fast-path frame (the reader looks at nothing else): all 255 of them, with
+\* short and long lengths at the boundaries
+OtherFirst  == [k \in 1..255 |-> IF k - 1 < 3 THEN k - 1 ELSE k]
+BoundShort  == <<0, 1, 2, 3, 9, 127>>
+BoundLong   == << <<128, 0>>, <<128, 2>>, <<128, 3>>, <<128, 9>>, <<129, 0>>, <<255, 255>> >>
+AnyFirstHdrs == [k \in 1..(255 * 12) |-> LET f == OtherFirst[1 + ((k - 1) \div 12)]  j == 1 + ((k - 1) % 12) IN
+                                          IF j <= 6 THEN <<f, BoundShort[j]>> ELSE <<f>> \o BoundLong[j - 6]]
 ReadTable == [k \in 1..65536 |-> Row(TpktHdrs[k])] \o [k \in 1..(128*64) |-> Row(FpShortHdrs[k])]
-             \o [k \in 1..32768 |-> Row(FpLongHdrs[k])]
+             \o [k \in 1..32768 |-> Row(FpLongHdrs[k])] \o [k \in 1..(255 * 12) |-> Row(AnyFirstHdrs[k])]
 
 \* write side: payload length n on each layer
 \* header of the frame for payload length n: FrameOf(layer, p) only depends on Len(p) in its first bytes
